@@ -32,6 +32,7 @@ Theorem C05_atomic_visible :
   InvA pickle meta s ->
   InvA pickle meta (crash_run (sess pickle unpickle meta parse_meta code code_eq decodes gitbytes f sp) n torn s).
 Proof. exact crash_A. Qed.
+Print Assumptions C05_atomic_visible.
 
 (* the same for any number of processes of any mix of source versions, killed (Kill) or killed
    inside a write (Torn) or running (Run) in any order -- repeated crashes included *)
@@ -41,12 +42,14 @@ Theorem C05_atomic_visible_any_history :
   InvA pickle meta
     (fst (grun evs (s, map (fun sp => Some (sess pickle unpickle meta parse_meta code code_eq decodes gitbytes f sp)) sps))).
 Proof. exact atomic_global. Qed.
+Print Assumptions C05_atomic_visible_any_history.
 
 (* what InvA says, spelled out *)
 Theorem C05_final_names_complete : forall pickle meta s k b,
   InvA pickle meta s ->
   (lookup (POut k) s = Some b -> exists v, b = pickle v) /\ (lookup (PMeta k) s = Some b -> b = meta).
 Proof. intros pickle meta s k b (_ & HO & HM & _). split; intros H; [exact (HO k b H) | exact (HM k b H)]. Qed.
+Print Assumptions C05_final_names_complete.
 
 (* Recovery: from every directory satisfying the invariant [InvB cur] (tree well formed, every
    final output.pkl of entry k is the pickle of f cur k, func_code.py is a prefix of the current
@@ -62,6 +65,7 @@ Theorem C05_recover :
   let r := run (session pickle unpickle meta parse_meta code code_eq decodes gitbytes f cur t cb (map ACall ks)) s' in
   Forall2 (fun k o => exists c, o = OVal (f cur k) c) ks (fst r) /\ InvB pickle meta code f cur (snd r).
 Proof. exact recover_after_crash. Qed.
+Print Assumptions C05_recover.
 
 (* ... and after any history of any number of such processes, each killed anywhere or not *)
 Theorem C05_recover_any_history :
@@ -72,6 +76,7 @@ Theorem C05_recover_any_history :
   let r := run (session pickle unpickle meta parse_meta code code_eq decodes gitbytes f cur t cb (map ACall ks)) s' in
   Forall2 (fun k o => exists c, o = OVal (f cur k) c) ks (fst r) /\ InvB pickle meta code f cur (snd r).
 Proof. exact recover_after_history. Qed.
+Print Assumptions C05_recover_any_history.
 
 (* Full statement, FALSE of the code when the source changes (finding F23):
      forall histories mixing source versions, a later call returns the current function's value.
@@ -92,6 +97,7 @@ Proof.
              (InvB_empty Toy.pickle Toy.meta Toy.code Toy.f 1))).
   - exact (proj2 (proj2 f23_witness)).
 Qed.
+Print Assumptions C05_recover_source_change_refuted.
 
 (* Full statement without the ASCII hypothesis, FALSE of the code (finding F24): a func_code.py
    torn inside a multi-byte utf-8 character makes every later call raise (UnicodeDecodeError is
@@ -102,6 +108,7 @@ Theorem C05_recover_nonascii_refuted :
     Toy.decodes (firstn j (Toy.code 100)) = false /\
     fst (run (Toy.session 100 2 None [ACall 1]) s') = [OExn ValueError].
 Proof. exists 7%nat, 3%nat. exact (proj2 f24_witness). Qed.
+Print Assumptions C05_recover_nonascii_refuted.
 
 (* non-vacuity: the hypotheses of C05_recover hold of the concrete instantiation used by the
    correspondence check, from the empty directory *)
@@ -114,3 +121,4 @@ Proof.
   split; [apply InvB_empty|]. split; [apply InvA_empty|]. split; [exact toy_unpickle_pickle|].
   split; [intros j; apply toy_decodes_prefix; reflexivity | vm_compute; reflexivity].
 Qed.
+Print Assumptions C05_hypotheses_satisfiable.
